@@ -120,12 +120,25 @@ pub fn run(cfg: &Cfg) -> Report {
     let seed = cfg.seed;
 
     // universe: 2D symbols on connected sets <= n2 chambers with v in 1..3, 3D <= n3 with v in {1,2,3}
-    let (n2, n3) = cfg.tier.pick((5, 4), (6, 5));
+    let (n2, n3) = cfg.tier.pick((6, 4), (7, 5));
     let mut symbols: Vec<MSym> = vec![];
-    for s in gen::connected_sets_upto(2, n2) {
-        gen::for_all_branchings(&s, &|_, _| vec![1, 2, 3], &mut |x| symbols.push(x.clone()));
-    }
     let mut rng0 = Rng::stream(seed, 3);
+    for s in gen::connected_sets_upto(2, n2) {
+        if gen::adjacent_orbits(&s).len() <= 6 {
+            gen::for_all_branchings(&s, &|_, _| vec![1, 2, 3], &mut |x| symbols.push(x.clone()));
+        } else {
+            for _ in 0..120 {
+                let mut x = s.clone();
+                for (i, _, members, _) in gen::adjacent_orbits(&s) {
+                    let v = 1 + rng0.below(3);
+                    for e in members {
+                        x.v[i][e] = v;
+                    }
+                }
+                symbols.push(x);
+            }
+        }
+    }
     for s in gen::connected_sets_upto(3, n3) {
         let orbits = gen::adjacent_orbits(&s).len();
         if orbits <= 5 {
